@@ -534,7 +534,9 @@ def rule_R5(ctx):
             for (i2, j2, s2) in Q.aggregates(bb, "WorkerStats"):
                 ff = dict(zip(s2["r"]["fields"], s2["r"]["ops"]))
                 t = T.expand_upvars(P, bb, SS.operand(ff["dropped"], i2, j2))
-                if T.has_call(t, "::load") and "worker_dropped" in T.pp(t):
+                # read by index (`self.worker_dropped[id]`) or as the element of an iteration over `worker_dropped` zipped with the senders
+                if T.has_call(t, "::load") and ("worker_dropped" in T.pp(t) or any(x[0] == "field" and x[2] == "worker_dropped" for x in T.walk(t))) \
+                        and not any(x[0] == "field" and x[2] in ("dropped_count", "dispatched_count") for x in T.walk(t)):
                     okw = True
         ctx.check(okw, "R5", fam + ":stats:worker-dropped", "WorkerStats.dropped = self.worker_dropped[id].load()",
                   "per-worker drop statistic is not read from worker_dropped", ctx.loc(b))
